@@ -43,6 +43,13 @@ def _h(*parts) -> str:
     return hashlib.sha256("\x1f".join(str(p) for p in parts).encode("utf-8", "backslashreplace")).hexdigest()[:20]
 
 
+class SnapshotTooLarge(Exception):
+    """the program has more nodes than a run can afford to re-digest after every operation (the run is then not judged)"""
+
+
+NODE_BUDGET = 120_000
+
+
 def node_snapshot(v, ref, memo=None):
     """Digest of the canonical structure plus, per node and list, the gengy labels, the types
     index ({typename: digests of its entries}) and the synthesis context.  Memoised per object
@@ -52,6 +59,10 @@ def node_snapshot(v, ref, memo=None):
 
 
 def _snap(v, ref, memo):
+    n_seen = memo.get("#", 0) + 1  # visits, memo hits included (the types index of every node lists all its descendants)
+    memo["#"] = n_seen
+    if n_seen > NODE_BUDGET:
+        raise SnapshotTooLarge()
     k = id(v)
     hit = memo.get(k)
     if hit is not None and hit[0] is v:
